@@ -269,6 +269,20 @@ def _binding_obligation(res, fname, ast_ty, extra_args=None):
     e.allow_havoc(r'^(compiler::)?Compiler::(identifier_constant|make_constant|string_constant|variable_get|variable_set|error)$', r'^(laythe_core::)?(allocator::)?Allocator::manage_str$',
                   r'^(compiler::ir::)?(token::)?Token::\w+$', r'^(compiler::ir::)?(ast::)?\w+::(start|end|span)$', r'^<.* as (compiler::ir::)?(ast::)?Spanned>::(start|end|span)$')
 
+    e.allow_havoc(r'^(compiler::)?Compiler::(function|method|static_method|emit_known_invoke|emit_local_get|emit_local_set|emit_constant|class_body|get_module_symbol_offset)$',
+                  r'^(laythe_core::)?(hooks::)?(GcHooks|Hooks)::\w+$', r'^(laythe_core::)?(allocator::)?Allocator::\w+$', r'^RefCell::borrow(_mut)?$')
+    ed_opt = P.enum_def('Option')
+
+    def m_resolve_local(e_, a, c):
+        if not e_.fork_bool(z3.Bool(e_.fresh_name('local_found'))):
+            return EnumV('Option<(u8, SymbolState)>', 0, None, None, ed_opt)
+        stv = z3.BitVec(e_.fresh_name('local_state'), 64)
+        e_.add_constraint(z3.ULT(stv, len(sed.variants)))
+        k = e_.concretize(stv, list(range(len(sed.variants))))
+        tup = Struct('()', {0: Cell(z3.BitVec(e_.fresh_name('local_slot'), 8)), 1: Cell(EnumV(STATE, k, None, None, sed))}, None)
+        return EnumV('Option<(u8, SymbolState)>', 1, {'Some': {0: Cell(tup)}}, None, ed_opt)
+    e.model(r'^(compiler::)?Compiler::resolve_local$', m_resolve_local)
+
     def name_of(e_, v):
         while isinstance(v, Ref):
             v = v.cell.get(e_)
@@ -334,3 +348,24 @@ def k2_let_binding(res, tier):
     rs = _binding_obligation(res, 'let_', 'compiler::ir::ast::Let')
     if not any(isinstance(r.info, dict) and r.info.get('defined') for r in rs if r.kind == 'ok'):
         res.inconclusive('vacuous: no path defines the variable')
+
+
+def _mk_binding(fname, ast_ty, doc):
+    @obligation('C02.K2.' + fname.rstrip('_') + '_binding', 'C02', programs=('vm',))
+    def ob(res, tier):
+        res.bounds = {'state of every declared variable': 'every SymbolState', 'sub-constructs': 'opaque'}
+        rs = _binding_obligation(res, fname, ast_ty)
+        if not any(isinstance(r.info, dict) and r.info.get('defined') for r in rs if r.kind == 'ok'):
+            res.inconclusive('vacuous: no path defines a variable')
+    ob.__doc__ = doc
+    from vfw.core import REGISTRY
+    for o in REGISTRY.get('C02', []):
+        if o.id == 'C02.K2.' + fname.rstrip('_') + '_binding':
+            o.doc = doc
+    return ob
+
+
+for _f, _t, _d in [
+    ('fun', 'compiler::ir::ast::Fun', 'Compiler::fun: the function name is defined with the state the resolver gave it (a function captured by a closure lives in a filled box)'),
+]:
+    _mk_binding(_f, _t, _d)
